@@ -144,8 +144,21 @@ def emit_scope(src, chain, idx, scope, pad):
     me = len(src.scopes)
     if kind in ("function", "class"):
         name = ("func%d" if kind == "function" else "Klass%d") % me
+        hpad = pad
         if kind == "function":
-            if node.get("param"):
+            if node.get("param") == "use":
+                # the default expression USES the identifier: evaluated in the enclosing scope when the def executes
+                src.add("%stry:" % pad)
+                hpad = pad + "    "
+                sid = len(src.sites)
+                uid, use = src.use_expr(scope)
+                src.uses[uid]["in_default"] = "def"
+                text = '%sdef %s(%s=(%s and "S%d")):' % (hpad, name, x, use, sid)
+                ln = src.add(text)
+                src.locate_use(uid, ln, text)
+                src.scopes.append({"kind": kind, "line": ln, "parent": scope, "name": name})
+                src.site(ln, text.index("(") + 1, me)
+            elif node.get("param"):
                 sid = len(src.sites)
                 text = '%sdef %s(%s="S%d"):' % (pad, name, x, sid)
                 ln = src.add(text)
@@ -157,7 +170,7 @@ def emit_scope(src, chain, idx, scope, pad):
         else:
             ln = src.add("%sclass %s:" % (pad, name))
             src.scopes.append({"kind": kind, "line": ln, "parent": scope, "name": name})
-        inner = pad + "    "
+        inner = hpad + "    "
         if node["use_begin"]:
             emit_use(src, me, inner)
         emit_binding(src, node["pre"], me, inner)
@@ -168,6 +181,9 @@ def emit_scope(src, chain, idx, scope, pad):
         if node["use_end"]:
             emit_use(src, me, inner)
         src.add("%spass" % inner)
+        if hpad != pad:
+            src.add("%sexcept NameError:" % pad)
+            src.add("%s    pass" % pad)
         # binding in the PARENT after the definition but before the call
         emit_binding(src, node["parent_after_def"], scope, pad)
         if kind == "function":
@@ -205,6 +221,13 @@ def emit_scope(src, chain, idx, scope, pad):
                 elems.append("0")
             body = "(%s,)" % ", ".join(elems)
             if k == "lambda":
+                if n.get("param") == "use":
+                    sid = len(src.sites)
+                    uid, use = src.use_expr(sc)        # evaluated in the scope that contains the lambda
+                    uids.append(uid)
+                    src.uses[uid]["in_default"] = "lambda"
+                    src.sites.append({"sid": sid, "line": None, "col": None, "scope": own_scope, "param_text": 'lambda %s=(REC(%d, ' % (x, uid)})
+                    return '(lambda %s=(%s and "S%d"): %s)()' % (x, use, sid, body)
                 if n.get("param"):
                     sid = len(src.sites)
                     src.sites.append({"sid": sid, "line": None, "col": None, "scope": own_scope, "param_text": 'lambda %s="S%d"' % (x, sid)})
@@ -270,12 +293,12 @@ def shapes(draw):
         if kind in ("function", "class"):
             node["pre"] = draw(st.sampled_from(STMT_PATTERNS))
             node["post"] = draw(st.sampled_from(STMT_PATTERNS))
-            node["param"] = kind == "function" and draw(st.integers(0, 4)) == 0
+            node["param"] = draw(st.sampled_from([False, False, False, "literal", "use"])) if kind == "function" else False
         else:
             expr_mode = True
             node["pre"] = draw(st.sampled_from(EXPR_PATTERNS))
             node["post"] = "none"
-            node["param"] = kind == "lambda" and draw(st.integers(0, 4)) == 0
+            node["param"] = draw(st.sampled_from([False, False, False, "literal", "use"])) if kind == "lambda" else False
             node["target"] = kind == "comprehension" and draw(st.integers(0, 3)) == 0
         chain.append(node)
     chain[-1]["use_end"] = True
@@ -463,7 +486,8 @@ def run_case(ctx, shape):
                     if src.scopes[a]["kind"] in ("function", "class", "module"):
                         break
                     a = src.scopes[a]["parent"]
-            shape_cls = "use-in-%s" % use_kind + ("+%s-decl" % "+".join(declared) if declared else "") + inherited
+            shape_cls = "use-in-%s" % use_kind + ("+%s-decl" % "+".join(declared) if declared else "") + inherited \
+                + (":in-%s-default" % u["in_default"] if u.get("in_default") else "")
             where = "use %d of %r at (%d,%d) in %s read %s; goto=%s" % (uid, x, u["line"], u["col"], use_kind, got, got_pos)
             ctx.cls("use-in:" + use_kind)
             if len(binders) >= 2 or between or src.decls:
